@@ -1,0 +1,8 @@
+//go:build verif && !windows
+
+package desync
+
+// Accessor for the verification harness of C05 (build tag verif). No behaviour.
+
+// VerifMkdev exposes mkdev.
+func VerifMkdev(major, minor uint64) uint64 { return mkdev(major, minor) }
